@@ -43,6 +43,14 @@ Theorem C05_all_histories : forall cfg h, exists s out, run cfg state_init h = O
 Proof. exact all_histories. Qed.
 Print Assumptions C05_all_histories.
 
+(* ... and still answers a PING (the model-level half of "does not stop processing"; the
+   real goroutines are observed by suite state.liveness) *)
+Theorem C05_ping_after_every_history : forall cfg h src tag ps,
+  exists s out s', run cfg state_init h = Ok (s, out) /\ Inv s /\
+    handle cfg s (ping_event src tag ps) = Ok (s', [OutSend s_PONG [last ps []]]) /\ Inv s'.
+Proof. exact ping_after_every_history. Qed.
+Print Assumptions C05_ping_after_every_history.
+
 (* the state mutators of state.go never dereference a missing entry and keep the invariant *)
 Theorem C05_delete_channel : forall s name, Inv s -> exists s', delete_channel s name = Ok s' /\ Inv s'.
 Proof. exact delete_channel_inv. Qed.
